@@ -1099,7 +1099,8 @@ def simplify(case):
 
 def signature(case, viol, prop):
     cfg = case['cfg']
-    kinds = sorted(set(op['op'] for op in case['ops']) - {'call'})
+    canon = {'load_k': 'load', 'dump_k': 'dump', 'restart_dump': 'restart', 'clear_keep': 'clear'}
+    kinds = sorted(set(canon.get(op['op'], op['op']) for op in case['ops']) - {'call'})
     feats = []
     if cfg['maxsize_pos'] and cfg['maxsize'] in (0, None):
         feats.append('maxsize-positional-%s' % cfg['maxsize'])
